@@ -29,15 +29,15 @@ __CPROVER_requires(obj != NULL && node != NULL)
 __CPROVER_assigns(G_TYPE_STATE);
 
 CO_ERR read_contract(struct CO_OBJ_T *obj, struct CO_NODE_T *node, void *buffer, uint32_t size)
-__CPROVER_requires(obj != NULL && node != NULL && buffer != NULL)
+__CPROVER_requires(obj != NULL && node != NULL && buffer != NULL && __CPROVER_w_ok(buffer, size))
 __CPROVER_requires(EXP_OK(buffer, size))
-__CPROVER_assigns(G_TYPE_STATE, G_READ_N, __CPROVER_object_whole(buffer))
+__CPROVER_assigns(G_TYPE_STATE, G_READ_N, V_NODE.Sdo[0].Abort, V_NODE.Sdo[CO_SSDO_N - 1].Abort, __CPROVER_object_whole(buffer))
 __CPROVER_ensures(G_READ_N == __CPROVER_old(G_READ_N) + 1);
 
 CO_ERR write_contract(struct CO_OBJ_T *obj, struct CO_NODE_T *node, void *buffer, uint32_t size)
-__CPROVER_requires(obj != NULL && node != NULL && buffer != NULL)
+__CPROVER_requires(obj != NULL && node != NULL && buffer != NULL && __CPROVER_r_ok(buffer, size))
 __CPROVER_requires(EXP_OK(buffer, size))
-__CPROVER_assigns(G_TYPE_STATE, G_WRITE_N)
+__CPROVER_assigns(G_TYPE_STATE, G_WRITE_N, V_NODE.Sdo[0].Abort, V_NODE.Sdo[CO_SSDO_N - 1].Abort)
 __CPROVER_ensures(G_WRITE_N == __CPROVER_old(G_WRITE_N) + 1);
 
 CO_ERR reset_contract(struct CO_OBJ_T *obj, struct CO_NODE_T *node, uint32_t para)
@@ -63,55 +63,76 @@ __CPROVER_ensures(G_RESET_N == __CPROVER_old(G_RESET_N) + 1);
 #ifdef VW_ENFORCE_OBJ
 #define TYPE_HAS(obj, FN) ((obj)->Type->FN != NULL)
 #define TYPE_CLAUSE(c) (c)
+#define VIEW_CLAUSE(c) 1
 #else
 #define TYPE_CLAUSE(c) 1
+/* result-binding ghosts (upper-layer view only): the value a type function reports is named by a
+ * ghost INPUT (never assigned), so that a caller's contract can speak about it.  Universally
+ * quantified, hence without loss of generality wherever the callee is called at most once per
+ * step; type Size functions are pure (size_contract assigns nothing). */
+#define VIEW_CLAUSE(c) (c)
 #endif
+extern uint32_t G_OBJSIZE;     /* what COObjGetSize reports for a valid entry */
+extern CO_ERR   G_RD_ERR;      /* what the type's read reports */
+extern CO_ERR   G_WR_ERR;      /* what the type's write reports */
+#define G_Read_ERR G_RD_ERR
+#define G_Write_ERR G_WR_ERR
 #define OBJ_BADARG(obj, node) ((obj) == NULL || (obj)->Type == NULL || (node) == NULL)
 
 uint32_t COObjGetSize(struct CO_OBJ_T *obj, CO_NODE *node, uint32_t width)
 __CPROVER_requires((obj == NULL || __CPROVER_r_ok(obj, sizeof(CO_OBJ))) && TYPE_OK(obj))
 __CPROVER_ensures(OBJ_BADARG(obj, node) ==> __CPROVER_return_value == 0)
 __CPROVER_ensures(TYPE_CLAUSE((!OBJ_BADARG(obj, node) && obj->Type->Size == NULL) ==> __CPROVER_return_value == 0))
+__CPROVER_ensures(VIEW_CLAUSE(!OBJ_BADARG(obj, node) ==> __CPROVER_return_value == G_OBJSIZE))
 __CPROVER_assigns();
 
 CO_ERR COObjRdValue(struct CO_OBJ_T *obj, struct CO_NODE_T *node, void *value, uint8_t width)
 __CPROVER_requires((obj == NULL || __CPROVER_r_ok(obj, sizeof(CO_OBJ))) && TYPE_OK(obj))
+__CPROVER_requires(value == NULL || __CPROVER_w_ok(value, width))
 __CPROVER_requires(EXP_OK(value, width))
 __CPROVER_ensures((OBJ_BADARG(obj, node) || value == NULL) ==> (__CPROVER_return_value == CO_ERR_BAD_ARG && G_READ_N == __CPROVER_old(G_READ_N)))
 __CPROVER_ensures(TYPE_CLAUSE((!(OBJ_BADARG(obj, node) || value == NULL) && obj->Type->Read == NULL) ==> (__CPROVER_return_value == CO_ERR_OBJ_ACC && G_READ_N == __CPROVER_old(G_READ_N))))
 /* otherwise exactly one call of the type's read function with the caller's buffer and width */
 __CPROVER_ensures(TYPE_CLAUSE((!(OBJ_BADARG(obj, node) || value == NULL) && obj->Type->Read != NULL) ==> G_READ_N == __CPROVER_old(G_READ_N) + 1))
 __CPROVER_ensures(G_READ_N == __CPROVER_old(G_READ_N) || G_READ_N == __CPROVER_old(G_READ_N) + 1)
-__CPROVER_assigns(G_TYPE_STATE, G_READ_N; value != NULL: __CPROVER_object_whole(value));
+__CPROVER_ensures(VIEW_CLAUSE(!(OBJ_BADARG(obj, node) || value == NULL) ==> __CPROVER_return_value == G_RD_ERR))
+__CPROVER_assigns(G_TYPE_STATE, G_READ_N, V_NODE.Sdo[0].Abort, V_NODE.Sdo[CO_SSDO_N - 1].Abort; value != NULL: __CPROVER_object_whole(value));
 
 CO_ERR COObjWrValue(struct CO_OBJ_T *obj, struct CO_NODE_T *node, void *value, uint8_t width)
 __CPROVER_requires((obj == NULL || __CPROVER_r_ok(obj, sizeof(CO_OBJ))) && TYPE_OK(obj))
+__CPROVER_requires(value == NULL || __CPROVER_r_ok(value, width))
 __CPROVER_requires(EXP_OK(value, width))
 __CPROVER_ensures((OBJ_BADARG(obj, node) || value == NULL) ==> (__CPROVER_return_value == CO_ERR_BAD_ARG && G_WRITE_N == __CPROVER_old(G_WRITE_N)))
 __CPROVER_ensures(TYPE_CLAUSE((!(OBJ_BADARG(obj, node) || value == NULL) && obj->Type->Write == NULL) ==> (__CPROVER_return_value == CO_ERR_OBJ_ACC && G_WRITE_N == __CPROVER_old(G_WRITE_N))))
 __CPROVER_ensures(TYPE_CLAUSE((!(OBJ_BADARG(obj, node) || value == NULL) && obj->Type->Write != NULL) ==> G_WRITE_N == __CPROVER_old(G_WRITE_N) + 1))
 __CPROVER_ensures(G_WRITE_N == __CPROVER_old(G_WRITE_N) || G_WRITE_N == __CPROVER_old(G_WRITE_N) + 1)
-__CPROVER_assigns(G_TYPE_STATE, G_WRITE_N);
+__CPROVER_ensures(VIEW_CLAUSE(!(OBJ_BADARG(obj, node) || value == NULL) ==> __CPROVER_return_value == G_WR_ERR))
+__CPROVER_assigns(G_TYPE_STATE, G_WRITE_N, V_NODE.Sdo[0].Abort, V_NODE.Sdo[CO_SSDO_N - 1].Abort);
 
 /* buffer access: Start = reset the object's position to 0, then one read/write of `size` bytes;
  * Cont = one read/write of `size` bytes at the current position.  size is handed on unchanged. */
+#define BUF_Read_OK(b, n)  __CPROVER_w_ok(b, n)
+#define BUF_Write_OK(b, n) __CPROVER_r_ok(b, n)
 #define BUF_CONTRACT(NAME, CNT, FN, RESETS) \
 CO_ERR NAME(struct CO_OBJ_T *obj, struct CO_NODE_T *node, uint8_t *buffer, uint32_t size) \
 __CPROVER_requires((obj == NULL || __CPROVER_r_ok(obj, sizeof(CO_OBJ))) && TYPE_OK(obj)) \
+/* the caller's buffer must hold `size` bytes: a type function may move up to `size` bytes */ \
+__CPROVER_requires(buffer == NULL || BUF_##FN##_OK(buffer, size)) \
 __CPROVER_requires(EXP_OK(buffer, size) && (!G_EXP_ON || G_EXP_PARA == 0)) \
 __CPROVER_ensures((OBJ_BADARG(obj, node) || buffer == NULL) ==> (__CPROVER_return_value == CO_ERR_BAD_ARG && CNT == __CPROVER_old(CNT) && G_RESET_N == __CPROVER_old(G_RESET_N))) \
 __CPROVER_ensures(TYPE_CLAUSE((!(OBJ_BADARG(obj, node) || buffer == NULL) && obj->Type->FN == NULL) ==> (__CPROVER_return_value == CO_ERR_OBJ_ACC && CNT == __CPROVER_old(CNT) && G_RESET_N == __CPROVER_old(G_RESET_N)))) \
 __CPROVER_ensures(TYPE_CLAUSE((!(OBJ_BADARG(obj, node) || buffer == NULL) && obj->Type->FN != NULL) ==> \
     (CNT == __CPROVER_old(CNT) + 1 && G_RESET_N == __CPROVER_old(G_RESET_N) + ((RESETS && obj->Type->Reset != NULL) ? 1 : 0)))) \
-__CPROVER_ensures(CNT == __CPROVER_old(CNT) || CNT == __CPROVER_old(CNT) + 1)
+__CPROVER_ensures(CNT == __CPROVER_old(CNT) || CNT == __CPROVER_old(CNT) + 1) \
+__CPROVER_ensures(VIEW_CLAUSE(!(OBJ_BADARG(obj, node) || buffer == NULL) ==> __CPROVER_return_value == G_##FN##_ERR))
 BUF_CONTRACT(COObjRdBufStart, G_READ_N, Read, 1)
-__CPROVER_assigns(G_TYPE_STATE, G_READ_N, G_RESET_N; buffer != NULL: __CPROVER_object_whole(buffer));
+__CPROVER_assigns(G_TYPE_STATE, G_READ_N, G_RESET_N, V_NODE.Sdo[0].Abort, V_NODE.Sdo[CO_SSDO_N - 1].Abort; buffer != NULL: __CPROVER_object_whole(buffer));
 BUF_CONTRACT(COObjRdBufCont, G_READ_N, Read, 0)
-__CPROVER_assigns(G_TYPE_STATE, G_READ_N, G_RESET_N; buffer != NULL: __CPROVER_object_whole(buffer));
+__CPROVER_assigns(G_TYPE_STATE, G_READ_N, G_RESET_N, V_NODE.Sdo[0].Abort, V_NODE.Sdo[CO_SSDO_N - 1].Abort; buffer != NULL: __CPROVER_object_whole(buffer));
 BUF_CONTRACT(COObjWrBufStart, G_WRITE_N, Write, 1)
-__CPROVER_assigns(G_TYPE_STATE, G_WRITE_N, G_RESET_N);
+__CPROVER_assigns(G_TYPE_STATE, G_WRITE_N, G_RESET_N, V_NODE.Sdo[0].Abort, V_NODE.Sdo[CO_SSDO_N - 1].Abort);
 BUF_CONTRACT(COObjWrBufCont, G_WRITE_N, Write, 0)
-__CPROVER_assigns(G_TYPE_STATE, G_WRITE_N, G_RESET_N);
+__CPROVER_assigns(G_TYPE_STATE, G_WRITE_N, G_RESET_N, V_NODE.Sdo[0].Abort, V_NODE.Sdo[CO_SSDO_N - 1].Abort);
 
 CO_ERR COObjReset(struct CO_OBJ_T *obj, struct CO_NODE_T *node, uint32_t para)
 __CPROVER_requires((obj == NULL || __CPROVER_r_ok(obj, sizeof(CO_OBJ))) && TYPE_OK(obj))
